@@ -3,6 +3,7 @@
 package verifstack
 
 import (
+	"bytes"
 	"errors"
 	"io"
 	"path"
@@ -139,4 +140,51 @@ func VerifH10a() {
 	}
 	w.checkReads("H10a.after")
 	nd.Reach("H10a.end")
+}
+
+// VerifH10b: the same through the gRPC client over the loop-back transport, with the stream
+// breaking (the server's Recv fails with a non-EOF error: connection lost, client cancelled)
+// after a symbolic number of messages.
+func VerifH10b() {
+	nd.SetPreemptionBound(0)
+	concreteCounter = true
+	cfg := stdConfig()
+	w := &world{cfg: cfg, keys: []string{"a"}, txs: []*rtx{nil}, vlen: 1}
+	var lc *loopClient
+	w.d, w.c, lc = openExternal(cfg)
+	if nd.Choice("pre-value", 2) == 1 {
+		nd.Assert(w.doSet(0, "a", w.freshVal(), 0) == nil, "H10b.pre")
+	}
+	// content long enough for several chunks of the stream writer (2048 bytes each)
+	n := []int{1, 2049, 4097}[nd.Choice("len", 3)]
+	val := nd.Bytes("content", n)
+	chunks := (n + 2047) / 2048
+	// messages on the stream: header + chunks; the break happens after 0..messages of them
+	lc.recvFailAfter = nd.Choice("stream-breaks-after", chunks+2)
+	if lc.recvFailAfter == chunks+1 {
+		lc.recvFailAfter = -1 // no fault
+	}
+	var err error
+	switch nd.Choice("api", 3) {
+	case 0:
+		err = w.d.Set(ctx, "a", val)
+	case 1:
+		err = w.d.SetReader(ctx, "a", bytes.NewReader(val))
+	default:
+		f, cerr := w.d.Create(ctx, "a")
+		nd.Assert(cerr == nil, "H10b.create")
+		_, err = f.Write(val)
+		if cerr := f.Close(); err == nil {
+			err = cerr
+		}
+	}
+	lc.recvFailAfter = -1
+	if err == nil {
+		w.vs = append(w.vs, rver{key: "a", val: val, owner: 0, pos: w.tick()})
+		nd.Reach("H10b.success")
+	} else {
+		nd.Reach("H10b.failure")
+	}
+	w.checkReads("H10b.after")
+	nd.Reach("H10b.end")
 }
